@@ -1255,6 +1255,8 @@ def _c20_de(v):
     return datetime.date.fromisoformat(v)
 def _c20_ser(v) -> str:
     return v.isoformat()
+def _c20_ser_bad(v) -> "OnlyWhileTypeChecking":
+    return v.isoformat()
 class _C20St(SerializationStrategy):
     def serialize(self, v) -> str:
         return v.isoformat()
@@ -1280,7 +1282,9 @@ C20_FIELDS = ["a: int = 1", "n: Optional[int] = None", "s: str = 'x'", "d: datet
               "ld: List[datetime.date] = field(default_factory=list)",
               # defaults whose class is hashable while the value is not (a list somewhere inside), and unhashable Annotated metadata
               "tl: Tuple[List[int], List[int]] = ([1, 2], [3])", "ntl: _C20Win = _C20Win('main', [640, 480])", "fz: _C20Pal = _C20Pal(['red'])",
-              "am: Annotated[int, {'k': [1]}] = 1"]
+              "am: Annotated[int, {'k': [1]}] = 1",
+              # a serializer whose (string) return annotation names nothing that exists at run time: the schema falls back to Any
+              "dbad: datetime.date = field(default=datetime.date(2020, 1, 2), metadata={'serialize': _c20_ser_bad})"]
 
 
 def c20_task(payload):
